@@ -148,3 +148,25 @@ Theorem C04_written_section_names_are_distinct :
   forall x mv t, ser_ti x mv = Ok t -> NoDup (map fst t).
 Proof. intros x mv t H. destruct (ser_ti_images_stage x mv t H) as (p10 & p11 & N & _). exact N. Qed.
 Print Assumptions C04_written_section_names_are_distinct.
+
+(* .discinfo: the reader returns exactly the object the writer was given - the timestamp (a canonical decimal token: such a token
+   is the repr of the float it denotes, CPython's float()/repr() are trusted for that), a description and an architecture that fit
+   on a line (non-empty, no newline, no outer blanks; the description not wrapped in quotes), and 'ALL' or any non-empty list of
+   integers of any size - and the validators accept it again *)
+From PM Require Import Proofs.DiscInfoRoundtrip.
+Theorem C04_discinfo_roundtrip :
+  forall t desc arch nums text,
+  let d := {| di_timestamp := PFloat t; di_description := PStr desc; di_arch := PStr arch; di_disc_numbers := PList nums |} in
+  canonical_float t = true -> text_line desc -> strip_quotes desc = desc -> text_line arch ->
+  (nums = [PStr (F"ALL")] \/ exists zs, zs <> [] /\ nums = map PInt zs) ->
+  dump_di d = Ok text -> load_di text = Ok d.
+Proof. exact di_roundtrip. Qed.
+Print Assumptions C04_discinfo_roundtrip.
+
+Example C04_discinfo_roundtrip_nonvacuous :
+  let d := {| di_timestamp := PFloat (F"1440000000.123"); di_description := PStr (F"Fedora 22"); di_arch := PStr (F"x86_64");
+              di_disc_numbers := PList (map PInt [1; 2; 3]%Z) |} in
+  canonical_float (F"1440000000.123") = true /\ text_line (F"Fedora 22") /\ strip_quotes (F"Fedora 22") = F"Fedora 22" /\
+  text_line (F"x86_64") /\ dump_di d = Ok (join [c_nl] [F"1440000000.123"; F"Fedora 22"; F"x86_64"; F"1,2,3"]) /\
+  load_di (join [c_nl] [F"1440000000.123"; F"Fedora 22"; F"x86_64"; F"1,2,3"]) = Ok d.
+Proof. exact di_roundtrip_nonvacuous. Qed.
